@@ -715,6 +715,33 @@ for _text_limit in ("maxstring", "maxother"):
 
 """, ""),
     ],
+    "mutants/c06_fix_assigned_in_list_comprehension_not_read_back": [
+        ("icontract/_recompute.py", """        if not isinstance(node, ast.GeneratorExp):
+            self._name_to_value.update(read_assigned())
+            return result
+""", """        if not isinstance(node, ast.GeneratorExp):
+            return result
+"""),
+    ],
+    "mutants/c06_fix_assigned_in_generator_expression_not_read_back": [
+        ("icontract/_recompute.py", """        return propagating_assigned()
+""", """        return result
+"""),
+    ],
+    "mutants/c07_fix_format_spec_pasted_into_format_string_again": [
+        ("icontract/_recompute.py", """            return format(
+                converted,
+                "" if recomputed_format_spec is None else recomputed_format_spec,
+            )
+""", """            return ("{:" + ("" if recomputed_format_spec is None else recomputed_format_spec) + "}").format(converted)
+"""),
+    ],
+    "mutants/c07_fix_double_star_through_items_again": [
+        ("icontract/_recompute.py", """                        for key in kw.keys():
+                            val = kw[key]
+""", """                        for key, val in kw.items():
+"""),
+    ],
     "seeded/C04_r3_async_pre_returns_at_first_failed_group": [
         (CHK, """            if not_check(check=check, contract=contract):
                 violated = contract
